@@ -21,7 +21,7 @@ Regexes ==
   { [ast |-> Chr(cx), fl |-> NoFlags, hays |-> {<<ca, cb>>, <<>>}],                                       \* no match / x
     [ast |-> Cat(<<Grp(A), Opt(Grp(B))>>), fl |-> NoFlags, hays |-> {<<cx, ca, cb, ca, cx>>, <<ca, ca>>}],   \* (a)(b)?
     [ast |-> Alt(<<NGrp(nA, A), NGrp(nA, B)>>), fl |-> NoFlags, hays |-> {<<cb, cx, ca>>, <<cEacute, cb, cb>>}], \* duplicate name
-    [ast |-> Star(Chr(cx)), fl |-> NoFlags, hays |-> {<<cEacute, cx, cGrin>>, <<cx, cx, ca>>}],              \* empty matches
+    [ast |-> Star(Chr(cx)), fl |-> NoFlags, hays |-> {<<cEacute, cx, cGrin>>, <<cx, cx, ca>>, <<>>}],        \* empty matches, empty haystack
     [ast |-> Cat(<<NGrp(nA, Dot), NGrp(nB, Opt(Chr(cEacute)))>>), fl |-> UFlags, hays |-> {<<ca, cEacute, cb>>, <<cGrin>>}],
     [ast |-> Alt(<<Cat(<<Grp(A), NGrp(nA, B)>>), Cat(<<NGrp(nA, B), Grp(Chr(cc))>>)>>), fl |-> NoFlags,
      hays |-> {<<ca, cb, cb, cc>>, <<cb, cc, ca, cb>>}] }
